@@ -171,6 +171,8 @@ package processorqueue
 //@   allocates Request
 //@   modifies mapof(p.requestsWatcher.requests), mapof(p.requestsWatcher.requestsExpireAt), opof(p.requestsWatcher.requestCount), gEnqStamp, now
 //@   spawn modifies mapof(p.requestsWatcher.requests), mapof(p.requestsWatcher.requestsExpireAt), opof(p.requestsWatcher.requestCount)
+// the clean-up goroutine gives a slot back (RemoveFromWatchList decrements the count unconditionally): it may only be started for a request that took one
+//@   spawn requires[only-a-registered-request-is-cleaned-up] in(req.apiStream.GetID(), p.requestsWatcher.requests) && p.requestsWatcher.requests[req.apiStream.GetID()] == req
 //@   ensures[full-queue-rejects] old(atomicval(p.requestsWatcher.requestCount)) >= p.maxQueueSize ==> !result
 //@   ensures[answer-is-the-verdict] old(atomicval(p.requestsWatcher.requestCount)) < p.maxQueueSize ==> (result <==> req.result == requestSuccess)
 //@   ensures[own-request] req != nil && req.apiStream == apiStream && req.priority == priority
